@@ -225,6 +225,15 @@ class Ctx:
             if res["violated"]:
                 raise Infra("MODEL-ONLY: TLC reports %s violated in %s/%s (a problem of the model, not a verdict on the code)\n%s"
                             % (res["violated"], module, cfg, res["out"][-3000:]))
+            # a trace specification that stopped with an evaluation error after it had already REJECTED recorded events:
+            # those rejections are complete verdicts on real behaviour and stand; the rest of the trace is unexamined
+            whys = re.findall(r'"VERIF-WHY",\s*(\d+),\s*\{([^}]*)\}', res.get("text") or "", re.S)
+            if module.startswith("Trace") and whys and "evaluating" in res["out"]:
+                for ln, why in whys[:20]:
+                    self.violate("trace", "%s:rejected:%s" % (module, ",".join(sorted(re.findall(r'"(\w+)"', why)))),
+                                 "%s rejected recorded event %s (%s) before it stopped with an evaluation error on a later event; "
+                                 "the trace file of this run holds the event" % (module, ln, why.strip()), {"module": module, "line": int(ln)})
+                raise Crashed("%s stopped with an evaluation error after rejecting %d event(s); the remaining events were not examined" % (module, len(whys)))
             raise Infra("TLC failed on %s/%s (rc=%d)\n%s" % (module, cfg, p.returncode, res["out"][-3000:]))
         if not self.keep:
             shutil.rmtree(os.path.join(wd, "md"), ignore_errors=True)
@@ -312,7 +321,9 @@ class Ctx:
 
 
 class Crashed(Infra):
-    """The harness process was killed by a crash inside the code under test (a violation has been recorded)."""
+    """Exploration ended early but violations established on the real code have been recorded and stand: the harness
+    process was killed by a crash inside the code under test, or a trace specification stopped with an evaluation
+    error after it had rejected recorded events."""
 
 
 def go_crash_in_repo(stderr):
